@@ -180,7 +180,7 @@ def _job(args):
                 out["samples"].append(dict(dirs=[scan.dotted(d) for d in dirs], module_paths=[scan.dotted(m) for m in mps]))
         finally:
             scan.cleanup(base)
-    return out
+    return common.tag_job(out, __name__, "_job", list(args))
 
 
 def run(ctx: Ctx):
